@@ -20,7 +20,7 @@ def run(R, ctx):
              "types (SET), long and already-passed deadlines (EXPIRE), DEL/TYPE/TTL/EXISTS in between; refused-command scenarios followed by a full dump (a refused command changes nothing)")
 
     rule = R.rule
-    concsuite.run_conc(R, ctx, "list-bigread", ['bigread'], (2, 12), race=False)
+    concsuite.run_conc(R, ctx, "list-bigread", ['bigread', 'bpoptime'], (2, 12), race=False)
     R.rule = rule + " Concurrent scenario(s) bigread of the conc engine (see C05): the family's containers under concurrent clients, verdict by invariants that need no history search."
 
 def replay(R, payload):
